@@ -42,7 +42,7 @@ def build(repo, findings):
         C('aux', 'old(shell).trace().is_prefix_of(shell.trace())'),
         C('C02,C03 while-fold-done', (RUN % ('shell', 'is_while')) + '\n    == St::Done(result.next_control_flow, result.exit_code)'),
     ], body_first='broadcast use {lemma_new_events_push, lemma_wrun_push};')
-    f.before(r'^\s*let mut result = ExecutionResult::success\(\);', 'proof { lemma_new_events_empty(shell.trace()); }')
+    f.at_body_start('while_or_until_execute', 'proof { lemma_new_events_empty(shell.trace()); }')
     u.add(f)
     u.raw(FOOTER)
     u.assume('exec_allows_no_decreases_clause', 'while/until may legitimately run forever; termination is not claimed for command loops')
